@@ -111,7 +111,7 @@ def _run(prop, reg, tier, seed, work, known, t0, replay):
         if replay:
             break
         mcs.append(core.mc(mod, cfg, os.path.join(work, "mc"), workers=opts.get("workers", 8),
-                           timeout=opts.get("timeout", 3000), heap=opts.get("heap")))
+                           timeout=opts.get("timeout", 3000), heap=opts.get("heap"), env=opts.get("env")))
     # 2..4 legs
     total_traces = accepted = 0
     violations = []      # (sig, replay_path)
